@@ -119,6 +119,11 @@ func writeReplay(w *World, r *Result, path, prop string) bool {
 			os.WriteFile(path, b.Bytes(), 0o644)
 			return true
 		}
+		if sr := conformanceReplay(prop, r); sr != "" {
+			fmt.Fprintf(&b, "\nA structurally valid frame (built by the specification-level encoder of gen_c03.py) is refused or decoded to a wrong accessor value by the real ReadPacket (replay aid, not part of the proof):\n%s\nreplay: CONFIRMED on the real code\n", sr)
+			os.WriteFile(path, b.Bytes(), 0o644)
+			return true
+		}
 		if sr := credentialsReplay(r); sr != "" {
 			fmt.Fprintf(&b, "\nThe obligation is about information flow from the credentials. Two CONNECT packets differing only in equally long credentials render differently on the real code (replay aid, not part of the proof):\n%s\nreplay: CONFIRMED on the real code\n", sr)
 			os.WriteFile(path, b.Bytes(), 0o644)
